@@ -237,6 +237,9 @@ def concrete_check(name, value):
 BOUNDARY = [0, 1, -1, 2 ** 31, -2 ** 31, 2 ** 31 - 1, -2 ** 31 - 1, 2 ** 53, 2 ** 53 + 1, -2 ** 53 - 1, 10 ** 308, 2 ** 1024 - 2 ** 970 - 1, 2 ** 1024 - 2 ** 970, 10 ** 400,
             0.0, -0.0, 5e-324, 1.5, -1.5, 3.0, 2.0 ** 31, -2.0 ** 31, 2.0 ** 31 - 1, 2.0 ** 53 + 2, 1e308, math.inf, -math.inf, math.nan, True, False]
 
+# integers at which an undecided integer query is asked again as a ground query (see run_e2)
+INT_WITNESSES = [x for x in BOUNDARY if isinstance(x, int) and not isinstance(x, bool)] + [2 ** 53 - 1, -2 ** 53, 2 ** 53 + 3, 2 ** 54 + 2, 2 ** 63, 2 ** 63 + 1, -2 ** 63 - 1, 2 ** 64 + 1,
+                                                                                         10 ** 16 + 1, 10 ** 22, 10 ** 23, 10 ** 23 + 1, -10 ** 23 - 1, 123456789012345678901234567890]
 
 def validate_translation(z3, py2smt, SVal, F64, translate, fn, value):
     """the encoding evaluated on a concrete value must agree with the real function (accept/refuse and result)"""
@@ -331,6 +334,19 @@ def run_e2(tier, evid_dir):
                 state = "sat"; detail.append((label, val)); rec["args"] = {"name": o["name"], "value": encode_value(val), "law": label}
                 break
             if r != "unsat":
+                # the general query was not decided (typically int<->binary64 conversions in one formula): ask it again with the integer pinned to each
+                # entry of the boundary table — a ground query, decided by evaluation. sat = a counterexample (replayed like any other); unsat on the
+                # table changes nothing: the obligation stays inconclusive.
+                hit = None
+                if o["kind"] in ("int", "lit-int"):
+                    for c in INT_WITNESSES:
+                        s2 = z3.Solver(); s2.set("timeout", 10000); s2.add(*fmls); s2.add(v == c)
+                        ts = time.time(); r2 = str(s2.check()); rec["solver_s"] += time.time() - ts; rec["queries"] += 1
+                        if r2 == "sat":
+                            hit = c; break
+                if hit is not None:
+                    state = "sat"; detail.append((label, hit)); rec["args"] = {"name": o["name"], "value": hit, "law": label}
+                    break
                 state = "unknown"; detail.append((label, r))
         rec["state"] = state; rec["solver_s"] = round(rec["solver_s"], 3); rec["wall_s"] = round(time.time() - t1, 3)
         rec["laws"] = [l for l, _ in queries]
